@@ -77,7 +77,17 @@ impl<'t, 'a> LitGen<'t, 'a> {
     fn stmt(&mut self) -> String {
         self.counter += 1;
         let n = self.counter;
-        match self.t.below(36) {
+        match self.t.below(37) {
+            36 => {
+                // a literal spelled with a lone surrogate escape: 7 + 5 UTF-16 units, no valid UTF-8 spelling of its own
+                if crate::known::avoid_flags().lone_surrogate_literal {
+                    // (open finding: excluded by construction; an ordinary literal instead)
+                    let l = self.plant(None, true, false, "assignment");
+                    return format!("x = {l};");
+                }
+                self.planted.push(Planted { value: "short".into(), text: "'\\uD800abcdefghijk'".into(), ident: None, reported: false, free: false, tag: "lone-surrogate-escape" });
+                "x = '\\uD800abcdefghijk';".to_string()
+            }
             33 => {
                 // a literal as the `this` argument of a prototype call (it is repeated in the rewritten code)
                 let l = self.plant(Some(None), true, false, "proto-call-literal-this");
@@ -425,7 +435,10 @@ impl Check for C14 {
                 return Outcome::fail("value-duplicated", format!("value {:?} is listed twice", val.chars().take(30).collect::<String>()));
             }
             let Some(exp) = expected.get(&val) else {
-                let why = if val.len() <= 10 || val.len() > 256 { "length-bound" } else { "unexpected-entry" };
+                // a value that still shows the text of a lone surrogate escape (`\uD800`): the dependency's representation of
+                // such a literal, reported with a length and a value that are not the literal's
+                let lone = val.as_bytes().windows(4).any(|w| w[0] == b'\\' && w[1] == b'u' && (w[2] == b'D' || w[2] == b'd') && matches!(w[3], b'8'..=b'9' | b'a'..=b'f' | b'A'..=b'F'));
+                let why = if lone && planted.iter().any(|p| p["tag"] == json!("lone-surrogate-escape")) { "lone-surrogate-literal" } else if val.len() <= 10 || val.len() > 256 { "length-bound" } else { "unexpected-entry" };
                 return Outcome::fail(why, format!("reported literal {:?} ({} bytes) is not an expected string-literal expression of the input", val.chars().take(40).collect::<String>(), val.len()));
             };
             let mut pool = exp.clone();
